@@ -21,7 +21,7 @@ from ..recipes import ref as R
 
 LEVEL = "exploration"
 BUDGET_S = {"quick": 75, "thorough": 1500}
-N_RANDOM = {"quick": 400, "thorough": 12000}
+N_RANDOM = {"quick": 2000, "thorough": 50000}
 
 _x, _y, _a, _b = ["vec", "x"], ["vec", "y"], ["var", "a"], ["var", "b"]
 _xe = ["vbin", "*", _y, ["raw", 2.0, "float"]]
